@@ -131,6 +131,7 @@ typedef struct vw_world {
 	void *direct_jmp;            /* jmp_buf* for exit() in direct mode */
 	int direct_exit_code;
 	int watchdog_s;              /* wall-clock seconds allowed per vw_run call, 0=off */
+	long family_mismatch_sends;  /* sendto() calls refused because socket and destination differ in address family */
 } vw_world;
 
 extern vw_world W;
